@@ -80,7 +80,7 @@ pub fn decode(data: &[u8]) -> Script {
         }
     }
     let c0 = (layout_seed >> 16) as u16;
-    Script { mode, layout_seed, ops, cleanup: vec![c0, (layout_seed >> 32) as u16, (layout_seed >> 48) as u16] }
+    Script { mode, layout_seed, ops, cleanup: vec![c0, (layout_seed >> 32) as u16, (layout_seed >> 48) as u16], arena_seed: None }
 }
 
 pub const FUZZ_VIEWS: &[View] = &[View::Premature, View::Mem, View::Orphan, View::Weak, View::Count, View::Table, View::LibPanic, View::Consume];
@@ -114,6 +114,7 @@ pub fn run_bytes(data: &[u8]) {
         strict_loopback: false,
         shallow_clone: s.layout_seed & 1 == 1,
         clone_panics: 0,
+        allow_consume: false,
         clone_reentrant: false,
         default_ctor: 0,
     };
